@@ -63,7 +63,7 @@ def Node.wf (n : Node) : Bool :=
   idOk n.id && n.variant.wf && (match n.symbol with | some s => symbolOk s | none => true) &&
   (match n.comment with | some c => commentOk c | none => true)
 
-/-- The domain of the round trip: what the public constructors admit (non-zero `u64` ids, constants
+/-- The domain of the round trip: what the public constructors allow (non-zero `u64` ids, constants
 accepted by the `TryFrom` validators) minus what the text format cannot express (see above). -/
 def Line.wf : Line → Bool
   | .comment c => commentOk c
@@ -310,6 +310,19 @@ theorem variant_state_exact (a : Adv lr0 n lr) (srt : Nat) (hs : idOk srt = true
   have := kwspec_length kw_state
   simp only [List.length_append]; omega
 
+set_option hygiene false in
+/-- The proof script shared by the seven unary operators without indices. -/
+local macro "plain_unary " op:term : tactic => `(tactic| (
+  simp only [writeVariant, writeValue, writeIndices, List.append_assoc, List.cons_append,
+    List.nil_append, List.append_nil] at hr hk
+  refine step_opname a (.unary $op a0) hr (fun lr1 a1 r1 => ?_)
+  simp only [Btor2Tables.opToken, Btor2Tables.unaryOpToken, nodeVariant, valueVariant, bind_assoc,
+    pure_bind, Gen.Btor2.unaryOpTokenUnaryOp]
+  refine step_space_id a1 srt hs r1 (by rfl) (fun lr2 a2 r2 => ?_)
+  refine step_space_id a2 a0 ha r2 (term_not_digit hx) (fun lr3 a3 r3 => ?_)
+  refine hk lr3 (a3.cast ?_) r3
+  simp only [opName, List.length_append, List.length_cons]; omega))
+
 /-- Unary operators: `uext` / `sext` (pad width), `slice` (two indices), and the seven plain ones. -/
 theorem variant_unary_exact (a : Adv lr0 n lr) (srt a0 : Nat) (op : UnaryOp) (hs : idOk srt = true)
     (ha : idOk a0 = true) (hop : UnaryOp.wf op = true) {x : UInt8} {tl : VBytes} (hx : x = 32 ∨ x = 10)
@@ -354,16 +367,13 @@ theorem variant_unary_exact (a : Adv lr0 n lr) (srt a0 : Nat) (op : UnaryOp) (hs
     refine step_space_nonneg a4 l hop.2 r4 (term_not_digit hx) (fun lr5 a5 r5 => ?_)
     refine hk lr5 (a5.cast ?_) r5
     simp only [opName, List.length_append, List.length_cons]; omega
-  all_goals
-    simp only [writeVariant, writeValue, writeIndices, List.append_assoc, List.cons_append,
-      List.nil_append, List.append_nil] at hr hk
-    refine step_opname a (.unary _ a0) hr (fun lr1 a1 r1 => ?_)
-    simp only [Btor2Tables.opToken, Btor2Tables.unaryOpToken, nodeVariant, valueVariant, bind_assoc,
-      pure_bind, Gen.Btor2.unaryOpTokenUnaryOp]
-    refine step_space_id a1 srt hs r1 (by rfl) (fun lr2 a2 r2 => ?_)
-    refine step_space_id a2 a0 ha r2 (term_not_digit hx) (fun lr3 a3 r3 => ?_)
-    refine hk lr3 (a3.cast ?_) r3
-    simp only [opName, List.length_append, List.length_cons]; omega
+  case not => plain_unary UnaryOp.not
+  case inc => plain_unary UnaryOp.inc
+  case dec => plain_unary UnaryOp.dec
+  case neg => plain_unary UnaryOp.neg
+  case redand => plain_unary UnaryOp.redand
+  case redor => plain_unary UnaryOp.redor
+  case redxor => plain_unary UnaryOp.redxor
 
 /-- Binary operators (all forty). -/
 theorem variant_binary_exact (a : Adv lr0 n lr) (srt a0 a1 : Nat) (op : BinaryOp) (hs : idOk srt = true)
@@ -427,6 +437,508 @@ theorem variant_output_exact (a : Adv lr0 n lr) (val : Nat) (kind : SingleValueO
   refine hk lr2 (b2.cast ?_) r2
   have := kwspec_length (kw_output kind)
   simp only [List.length_append]; omega
+
+/-! ### sorts -/
+
+def sortName : VBytes := [115, 111, 114, 116]
+def bitvecName : VBytes := [98, 105, 116, 118, 101, 99]
+def arrayName : VBytes := [97, 114, 114, 97, 121]
+
+theorem kwSortBitVec_eq : Gen.Btor2.kwSortBitVec = sortName ++ 32 :: (bitvecName ++ [32]) := by decide
+theorem kwSortArray_eq : Gen.Btor2.kwSortArray = sortName ++ 32 :: (arrayName ++ [32]) := by decide
+
+/-- `sort bitvec <width>` / `sort array <domain> <codomain>`. -/
+theorem variant_sort_exact (a : Adv lr0 n lr) (s : BSort) (hs : (NodeVariant.sort s).wf = true) {x : UInt8}
+    {tl : VBytes} (hx : x = 32 ∨ x = 10) (hr : lr.v.rest = writeVariant (.sort s) ++ x :: tl) :
+    VariantGoal E lr0 n lr (.sort s) x tl := by
+  intro β k Q hk
+  cases s with
+  | bitVec w =>
+    simp only [NodeVariant.wf] at hs
+    simp only [writeVariant, kwSortBitVec_eq, List.append_assoc, List.cons_append, List.nil_append] at hr hk
+    refine step_keyword a (tok := NodeToken.sort) hr (by decide) (by decide) (fun lr1 a1 r1 => ?_)
+    simp only [nodeVariant, bind_assoc]
+    refine step_space a1 r1 (fun lr2 a2 r2 => ?_)
+    refine Wp.bind' (orGiveUp_exact (keywordToken_exact Gen.Btor2.sortToken r2 (by decide) (by rfl)
+      (t := SortToken.bitvec) (by decide))) ?_
+    intro r lr3 ⟨hres, a3⟩
+    subst hres
+    have r3 := a3.rest_of r2
+    simp only [bind_assoc, pure_bind]
+    refine step_space_id (a2.trans a3) w hs r3 (term_not_digit hx) (fun lr4 a4 r4 => ?_)
+    refine hk lr4 (a4.cast ?_) r4
+    simp only [sortName, bitvecName, List.length_append, List.length_cons, List.length_nil]; omega
+  | array d c =>
+    simp only [NodeVariant.wf, Bool.and_eq_true] at hs
+    simp only [writeVariant, kwSortArray_eq, List.append_assoc, List.cons_append, List.nil_append] at hr hk
+    refine step_keyword a (tok := NodeToken.sort) hr (by decide) (by decide) (fun lr1 a1 r1 => ?_)
+    simp only [nodeVariant, bind_assoc]
+    refine step_space a1 r1 (fun lr2 a2 r2 => ?_)
+    refine Wp.bind' (orGiveUp_exact (keywordToken_exact Gen.Btor2.sortToken r2 (by decide) (by rfl)
+      (t := SortToken.array) (by decide))) ?_
+    intro r lr3 ⟨hres, a3⟩
+    subst hres
+    have r3 := a3.rest_of r2
+    simp only [bind_assoc, pure_bind]
+    refine step_space_id (a2.trans a3) d hs.1 r3 (by rfl) (fun lr4 a4 r4 => ?_)
+    refine step_space_id a4 c hs.2 r4 (term_not_digit hx) (fun lr5 a5 r5 => ?_)
+    refine hk lr5 (a5.cast ?_) r5
+    simp only [sortName, arrayName, List.length_append, List.length_cons, List.length_nil]; omega
+
+/-! ### `justice` -/
+
+/-- The conditions of a `justice` line as written: ` <id>` each. -/
+def idsText (ns : List Nat) : VBytes := (ns.map fun n => [32] ++ natText n).flatten
+
+theorem idsText_cons (m : Nat) (ms : List Nat) : idsText (m :: ms) = 32 :: (natText m ++ idsText ms) := by
+  simp [idsText]
+
+theorem idsText_length_ge (ns : List Nat) : ns.length ≤ (idsText ns).length := by
+  induction ns with
+  | nil => simp [idsText]
+  | cons m ms ih => rw [idsText_cons]; simp only [List.length_cons, List.length_append]; omega
+
+/-- What follows a number inside the id list: a space or the terminator — never a digit. -/
+theorem idsText_head (ms : List Nat) (x : UInt8) (tl : VBytes) (hx : x = 32 ∨ x = 10) :
+    ∃ y T, idsText ms ++ x :: tl = y :: T ∧ isDigit y = false := by
+  cases ms with
+  | nil => exact ⟨x, tl, by simp [idsText], term_not_digit hx⟩
+  | cons m ms => exact ⟨32, _, by rw [idsText_cons]; rfl, by rfl⟩
+
+/-- The `for _ in 0..count` loop on `count` written ids. -/
+theorem justiceLoop_exact (ns : List Nat) : ∀ (n : Nat) (lr : LR) (acc : List Nat) (fuel : Nat),
+    Adv lr0 n lr → ns.all idOk = true → ns.length < fuel → ∀ {x : UInt8} {tl : VBytes}, (x = 32 ∨ x = 10) →
+    lr.v.rest = idsText ns ++ x :: tl →
+    Wp E (justiceLoop fuel ns.length acc) lr (fun r lr1 => r = acc.reverse ++ ns ∧
+      Adv lr0 (n + (idsText ns).length) lr1 ∧ lr1.v.rest = x :: tl) := by
+  induction ns with
+  | nil =>
+    intro n lr acc fuel a _ hf x tl _ hr
+    cases fuel with
+    | zero => omega
+    | succ f =>
+      simp only [justiceLoop, List.length_nil, beq_self_eq_true, ↓reduceIte]
+      exact Wp.pure ⟨by simp, by simpa [idsText] using a, by simpa [idsText] using hr⟩
+  | cons m ms ih =>
+    intro n lr acc fuel a hall hf x tl hx hr
+    simp only [List.all_cons, Bool.and_eq_true] at hall
+    cases fuel with
+    | zero => omega
+    | succ f =>
+      obtain ⟨y, T, hy, hyd⟩ := idsText_head ms x tl hx
+      rw [idsText_cons, List.cons_append, List.append_assoc, hy] at hr
+      have hne : (List.length (m :: ms) == 0) = false := by simp
+      rw [justiceLoop]
+      simp only [hne, Bool.false_eq_true, ↓reduceIte]
+      refine step_space_id a m hall.1 hr hyd (fun lr2 a2 r2 => ?_)
+      have hlen : (m :: ms).length - 1 = ms.length := by simp
+      rw [hlen]
+      refine (ih _ lr2 (m :: acc) f a2 hall.2 (by simp at hf; omega) hx (by rw [r2, hy])).mono ?_
+      intro r lr3 ⟨hres, a3, r3⟩
+      refine ⟨by rw [hres]; simp, a3.cast ?_, r3⟩
+      rw [idsText_cons]; simp only [List.length_cons, List.length_append]; omega
+
+/-- `justice <count> <id>…`. -/
+theorem variant_justice_exact (a : Adv lr0 n lr) (ns : List Nat)
+    (hs : (NodeVariant.output (.justice ns)).wf = true) {x : UInt8} {tl : VBytes} (hx : x = 32 ∨ x = 10)
+    (hr : lr.v.rest = writeVariant (.output (.justice ns)) ++ x :: tl) :
+    VariantGoal E lr0 n lr (.output (.justice ns)) x tl := by
+  intro β k Q hk
+  simp only [NodeVariant.wf, Bool.and_eq_true, Bool.not_eq_true', List.isEmpty_eq_false_iff,
+    decide_eq_true_eq] at hs
+  obtain ⟨⟨hne, hlen⟩, hall⟩ := hs
+  have hcount : idOk ns.length = true := by
+    rw [idOk_iff]; exact ⟨List.length_pos_iff.mpr hne, hlen⟩
+  have htext : writeVariant (.output (.justice ns)) = Gen.Btor2.kwOutputJustice ++ (natText ns.length ++ idsText ns) := by
+    simp [writeVariant, idsText]
+  rw [htext] at hr hk
+  simp only [List.append_assoc] at hr
+  obtain ⟨y, T, hy, hyd⟩ := idsText_head ns x tl hx
+  rw [hy] at hr
+  refine step_kwlit a kw_justice hr (fun lr1 a1 r1 => ?_)
+  simp only [nodeVariant, bind_assoc]
+  refine step_space_id a1 ns.length hcount r1 hyd (fun lr2 a2 r2 => ?_)
+  refine Wp.bind (Wp.get ?_)
+  have hfuel : ns.length < lr2.v.rest.length + 2 := by
+    rw [r2, ← hy]
+    have := idsText_length_ge ns
+    simp only [List.length_append, List.length_cons]; omega
+  refine Wp.bind' (justiceLoop_exact ns _ lr2 [] _ a2 hall hfuel hx (by rw [r2, hy])) ?_
+  intro r lr3 ⟨hres, a3, r3⟩
+  simp only [List.reverse_nil, List.nil_append] at hres
+  subst hres
+  simp only [pure_bind]
+  refine hk lr3 (a3.cast ?_) r3
+  have := kwspec_length kw_justice
+  simp only [List.length_append]; omega
+
+/-- Every well-formed variant: the node keyword and its arguments are read back exactly. -/
+theorem variant_exact (a : Adv lr0 n lr) (v : NodeVariant) (hwf : v.wf = true) {x : UInt8} {tl : VBytes}
+    (hx : x = 32 ∨ x = 10) (hr : lr.v.rest = writeVariant v ++ x :: tl) :
+    VariantGoal E lr0 n lr v x tl := by
+  intro β k Q hk
+  cases v with
+  | sort s => exact variant_sort_exact a s hwf hx hr hk
+  | value srt vv =>
+    simp only [NodeVariant.wf, Bool.and_eq_true] at hwf
+    cases vv with
+    | const c => exact variant_const_exact a srt c hwf.1 hwf.2 hx hr hk
+    | input => exact variant_input_exact a srt hwf.1 hx hr hk
+    | state => exact variant_state_exact a srt hwf.1 hx hr hk
+    | op o =>
+      have ho : o.wf = true := hwf.2
+      cases o with
+      | unary op a0 =>
+        simp only [Op.wf, Bool.and_eq_true] at ho
+        exact variant_unary_exact a srt a0 op hwf.1 ho.2 ho.1 hx hr hk
+      | binary op a0 a1 =>
+        simp only [Op.wf, Bool.and_eq_true] at ho
+        exact variant_binary_exact a srt a0 a1 op hwf.1 ho.1 ho.2 hx hr hk
+      | ternary op a0 a1 a2 =>
+        simp only [Op.wf, Bool.and_eq_true] at ho
+        exact variant_ternary_exact a srt a0 a1 a2 op hwf.1 ho.1.1 ho.1.2 ho.2 hx hr hk
+  | assignment st srt kind val =>
+    simp only [NodeVariant.wf, Bool.and_eq_true] at hwf
+    exact variant_assignment_exact a st srt val kind hwf.1.1 hwf.1.2 hwf.2 hx hr hk
+  | output o =>
+    cases o with
+    | singleValue kind val => exact variant_output_exact a val kind hwf hx hr hk
+    | justice ns => exact variant_justice_exact a ns hwf hx hr hk
+
+/-! ### the end of a line -/
+
+/-- The state after `n` more bytes of which the last one was the line's newline (`nl`) or not. -/
+structure LineEnd (lr : LR) (n : Nat) (nl : Bool) (lr1 : LR) : Prop where
+  rest : lr1.v.rest = lr.v.rest.drop n
+  pos : lr1.v.pos = lr.v.pos + n
+  fault : lr1.v.fault = lr.v.fault
+  sawEnd : lr1.v.sawEnd = lr.v.sawEnd
+  ioErr : lr1.v.ioErr = lr.v.ioErr
+  line : lr1.line = lr.line + (if nl then 1 else 0)
+  lineStart : lr1.lineStart = if nl then lr.v.pos + n else lr.lineStart
+
+theorem LineEnd.of_adv {lr1 : LR} {n : Nat} (a : Adv lr n lr1) : LineEnd lr n false lr1 :=
+  ⟨a.rest, a.pos, a.fault, a.sawEnd, a.ioErr, by simpa using a.line, by simpa using a.lineStart⟩
+
+theorem LineEnd.of_newline {mid lr1 : LR} {n : Nat} (a : Adv lr n mid) (h : NextLine mid lr1) :
+    LineEnd lr (n + 1) true lr1 :=
+  ⟨by rw [h.rest, a.rest, List.drop_drop], by rw [h.pos, a.pos]; omega, h.fault.trans a.fault,
+   h.sawEnd.trans a.sawEnd, h.ioErr.trans a.ioErr, by simp [h.line, a.line],
+   by simp only [↓reduceIte]; rw [h.lineStart, a.pos]; omega⟩
+
+theorem LineEnd.cast' {lr1 : LR} {n m : Nat} {nl : Bool} (h : LineEnd lr n nl lr1) (e : n = m) :
+    LineEnd lr m nl lr1 := e ▸ h
+
+/-- What `Node::write_into` emits after the variant (without the comment body), and the newline
+when the line has no comment. -/
+def trailerText (sym : Option VBytes) (hasComment : Bool) : VBytes :=
+  (match sym with | some s => [32] ++ s | none => []) ++ (if hasComment then [32, 59] else [10])
+
+/-- The `(symbol, comment)` tail of `try_node` on what the writer emits. -/
+theorem trailer_exact (a : Adv lr0 n lr) (sym : Option VBytes) (hc : Bool)
+    (hsym : ∀ s, sym = some s → symbolOk s = true) {T : VBytes}
+    (hr : lr.v.rest = trailerText sym hc ++ T)
+    (h1 : lr0.line + 1 ≤ usizeMax) (h2 : lr0.v.pos + n + (trailerText sym hc).length ≤ usizeMax) :
+    Wp E trailer lr (fun r lr1 => r = (sym, hc) ∧ LineEnd lr0 (n + (trailerText sym hc).length) (!hc) lr1) := by
+  unfold trailer
+  cases sym with
+  | none =>
+    cases hc with
+    | true =>
+      -- " ;"
+      simp only [trailerText, List.nil_append, ↓reduceIte, List.cons_append, List.length_cons,
+        List.length_nil] at hr h2 ⊢
+      refine Wp.bind' (space_some hr) ?_
+      intro r lr1 ⟨hres, a1⟩
+      subst hres
+      refine Wp.bind' (commentStart_some (a1.rest_of (t := [32]) hr)) ?_
+      intro r lr2 ⟨hres, a2⟩
+      subst hres
+      exact Wp.pure ⟨rfl, by simpa using LineEnd.of_adv ((a.trans a1).trans a2)⟩
+    | false =>
+      -- "\n"
+      simp only [trailerText, List.nil_append, Bool.false_eq_true, ↓reduceIte, List.cons_append,
+        List.length_cons, List.length_nil] at hr h2 ⊢
+      refine Wp.bind' (space_none hr (by decide)) ?_
+      intro r lr1 ⟨hres, a1⟩
+      subst hres
+      have r1 : lr1.v.rest = 10 :: T := by rw [a1.rest, hr]; rfl
+      have b1 := a.trans a1
+      refine Wp.bind' (newline_some r1 (by rw [b1.line]; exact h1) (by rw [b1.pos]; omega)) ?_
+      intro r lr2 ⟨hres, nl⟩
+      subst hres
+      exact Wp.pure ⟨rfl, by simpa using LineEnd.of_newline b1 nl⟩
+  | some s =>
+    have hs := hsym s rfl
+    simp only [symbolOk, Bool.and_eq_true, Bool.not_eq_true', List.isEmpty_eq_false_iff, bne_iff_ne,
+      ne_eq] at hs
+    obtain ⟨⟨hne, hall⟩, hhead⟩ := hs
+    obtain ⟨c0, cs, hcs⟩ : ∃ c0 cs, s = c0 :: cs := by
+      cases s with
+      | nil => exact absurd rfl hne
+      | cons c0 cs => exact ⟨c0, cs, rfl⟩
+    have hc0 : c0 ≠ 59 := by rw [hcs] at hhead; simpa using hhead
+    cases hc with
+    | true =>
+      -- " sym ;"
+      simp only [trailerText, ↓reduceIte, List.cons_append, List.nil_append, List.append_assoc,
+        List.length_cons, List.length_append, List.length_nil] at hr h2 ⊢
+      refine Wp.bind' (space_some hr) ?_
+      intro r lr1 ⟨hres, a1⟩
+      subst hres
+      have r1 : lr1.v.rest = s ++ 32 :: 59 :: T := a1.rest_of (t := [32]) hr
+      dsimp only
+      refine Wp.bind' (commentStart_none (x := c0) (by rw [r1, hcs]; rfl) hc0) ?_
+      intro r lr2 ⟨hres, a2⟩
+      subst hres
+      have r2 : lr2.v.rest = s ++ 32 :: 59 :: T := by rw [a2.rest, r1]; rfl
+      dsimp only
+      refine Wp.bind' (symbolName_exact r2 hne hall (Or.inl rfl)) ?_
+      intro r lr3 ⟨hres, a3⟩
+      subst hres
+      have r3 := a3.rest_of r2
+      dsimp only
+      refine Wp.bind' (space_some r3) ?_
+      intro r lr4 ⟨hres, a4⟩
+      subst hres
+      have r4 : lr4.v.rest = 59 :: T := a4.rest_of (t := [32]) r3
+      dsimp only
+      refine Wp.bind' (commentStart_some r4) ?_
+      intro r lr5 ⟨hres, a5⟩
+      subst hres
+      refine Wp.pure ⟨rfl, ?_⟩
+      have := LineEnd.of_adv (((((a.trans a1).trans a2).trans a3).trans a4).trans a5)
+      simp only [Bool.not_true]
+      refine this.cast' ?_
+      omega
+    | false =>
+      -- " sym\n"
+      simp only [trailerText, Bool.false_eq_true, ↓reduceIte, List.cons_append, List.nil_append,
+        List.append_assoc, List.length_cons, List.length_append, List.length_nil] at hr h2 ⊢
+      refine Wp.bind' (space_some hr) ?_
+      intro r lr1 ⟨hres, a1⟩
+      subst hres
+      have r1 : lr1.v.rest = s ++ 10 :: T := a1.rest_of (t := [32]) hr
+      dsimp only
+      refine Wp.bind' (commentStart_none (x := c0) (by rw [r1, hcs]; rfl) hc0) ?_
+      intro r lr2 ⟨hres, a2⟩
+      subst hres
+      have r2 : lr2.v.rest = s ++ 10 :: T := by rw [a2.rest, r1]; rfl
+      dsimp only
+      refine Wp.bind' (symbolName_exact r2 hne hall (Or.inr rfl)) ?_
+      intro r lr3 ⟨hres, a3⟩
+      subst hres
+      have r3 := a3.rest_of r2
+      dsimp only
+      refine Wp.bind' (space_none r3 (by decide)) ?_
+      intro r lr4 ⟨hres, a4⟩
+      subst hres
+      have r4 : lr4.v.rest = 10 :: T := by rw [a4.rest, r3]; rfl
+      have b4 := (((a.trans a1).trans a2).trans a3).trans a4
+      dsimp only
+      refine Wp.bind' (newline_some r4 (by rw [b4.line]; exact h1) (by rw [b4.pos]; omega)) ?_
+      intro r lr5 ⟨hres, nl⟩
+      subst hres
+      refine Wp.pure ⟨rfl, ?_⟩
+      have := LineEnd.of_newline b4 nl
+      simp only [Bool.not_false]
+      refine this.cast' ?_
+      omega
+
+/-! ### `try_node` and `next_line` -/
+
+theorem trailerText_head (sym : Option VBytes) (hc : Bool) (T : VBytes) :
+    ∃ x tl, trailerText sym hc ++ T = x :: tl ∧ (x = 32 ∨ x = 10) := by
+  cases sym with
+  | some s => exact ⟨32, s ++ ((if hc then [32, 59] else [10]) ++ T), by simp [trailerText], Or.inl rfl⟩
+  | none =>
+    cases hc with
+    | true => exact ⟨32, 59 :: T, by simp [trailerText], Or.inl rfl⟩
+    | false => exact ⟨10, T, by simp [trailerText], Or.inr rfl⟩
+
+/-- The text of a node up to (not including) its comment body; with the newline if there is no
+comment. -/
+def nodeHeadText (nd : Node) : VBytes :=
+  natText nd.id ++ 32 :: (writeVariant nd.variant ++ trailerText nd.symbol nd.comment.isSome)
+
+theorem LineEnd.adv {mid lr1 : LR} {n m : Nat} (h : LineEnd lr n false mid) (a : Adv mid m lr1) :
+    LineEnd lr (n + m) false lr1 :=
+  ⟨by rw [a.rest, h.rest, List.drop_drop], by rw [a.pos, h.pos]; omega, a.fault.trans h.fault,
+   a.sawEnd.trans h.sawEnd, a.ioErr.trans h.ioErr, by rw [a.line, h.line], by
+    rw [a.lineStart, h.lineStart]; simp⟩
+
+theorem LineEnd.after_adv {mid lr1 : LR} {n m : Nat} {nl : Bool} (a : Adv lr n mid)
+    (h : LineEnd mid m nl lr1) : LineEnd lr (n + m) nl lr1 :=
+  ⟨by rw [h.rest, a.rest, List.drop_drop], by rw [h.pos, a.pos]; omega, h.fault.trans a.fault,
+   h.sawEnd.trans a.sawEnd, h.ioErr.trans a.ioErr, by rw [h.line, a.line], by
+    rw [h.lineStart, a.lineStart, a.pos]; cases nl <;> simp; omega⟩
+
+/-- `try_node` on the written text of a well-formed node. -/
+theorem tryNode_exact (nd : Node) (hwf : nd.wf = true) {T : VBytes}
+    (hr : lr.v.rest = nodeHeadText nd ++ T) (h1 : lr.line + 1 ≤ usizeMax)
+    (h2 : lr.v.pos + (nodeHeadText nd).length ≤ usizeMax) :
+    Wp E tryNode lr (fun r lr1 => r = some ({ nd with comment := none }, nd.comment.isSome) ∧
+      LineEnd lr (nodeHeadText nd).length (!nd.comment.isSome) lr1) := by
+  obtain ⟨id, variant, symbol, comment⟩ := nd
+  simp only [Node.wf, Bool.and_eq_true] at hwf
+  obtain ⟨⟨⟨hid, hv⟩, hsym⟩, _⟩ := hwf
+  simp only [nodeHeadText, List.append_assoc, List.cons_append] at hr h2 ⊢
+  obtain ⟨x, tl, hy, hx⟩ := trailerText_head symbol comment.isSome T
+  obtain ⟨h0, hlt⟩ := idOk_iff.mp hid
+  unfold tryNode
+  refine Wp.bind' (positiveInt_exact (E := E) id h0 hlt hr (by rfl)) ?_
+  intro r lr1 ⟨hres, a1⟩
+  subst hres
+  have r1 := a1.rest_of hr
+  dsimp only
+  refine step_space a1 r1 (fun lr2 a2 r2 => ?_)
+  rw [hy] at r2
+  refine variant_exact a2 variant hv hx r2 (fun lr3 a3 r3 => ?_)
+  have hs' : ∀ s, symbol = some s → symbolOk s = true := by
+    intro s hs; subst hs; exact hsym
+  have hpos3 := a3.pos
+  refine Wp.bind' (trailer_exact a3 symbol comment.isSome hs' (by rw [r3, hy]) h1 ?_) ?_
+  · simp only [List.length_append, List.length_cons] at h2; omega
+  intro r lr4 ⟨hres, le⟩
+  subst hres
+  refine Wp.pure ⟨rfl, le.cast' ?_⟩
+  simp only [List.length_append, List.length_cons]; omega
+
+theorem writeLine_node_comment (id : Nat) (variant : NodeVariant) (symbol : Option VBytes) (c : VBytes) :
+    writeLine (.node { id, variant, symbol, comment := some c }) =
+      nodeHeadText { id, variant, symbol, comment := some c } ++ (c ++ [10]) := by
+  cases symbol <;> simp [writeLine, writeLineUnterminated, writeNode, nodeHeadText, trailerText]
+
+theorem writeLine_node_plain (id : Nat) (variant : NodeVariant) (symbol : Option VBytes) :
+    writeLine (.node { id, variant, symbol, comment := none }) =
+      nodeHeadText { id, variant, symbol, comment := none } := by
+  cases symbol <;> simp [writeLine, writeLineUnterminated, writeNode, nodeHeadText, trailerText]
+
+/-- Where `next_line` leaves the reader after the line `l`: behind the newline of a line without
+comment, ON the newline of a line that ends in a comment. -/
+def Line.endsInComment : Line → Bool
+  | .comment _ => true
+  | .node nd => nd.comment.isSome
+
+/-- `next_line` after its `skip_whitespace`. -/
+def nextLineRest : PM (Option Line) := do
+  match ← tryNode with
+  | some (node, hasComment) =>
+    if hasComment then
+      let c ← commentBody
+      pure (some (.node { node with comment := some c }))
+    else pure (some (.node node))
+  | none =>
+    match ← commentStart with
+    | some () =>
+      let c ← commentBody
+      pure (some (.comment c))
+    | none =>
+      match ← eof with
+      | some () =>
+        checkIoError
+        pure none
+      | none => unexpected
+
+theorem nextLine_eq : nextLine = (skipWhitespace >>= fun _ => nextLineRest) := rfl
+
+/-- The part of `next_line` after `skip_whitespace`, with the cursor on the first byte of a
+written line. -/
+theorem nextLineRest_exact (l : Line) (hwf : l.wf = true) {T : VBytes} (hr : lr.v.rest = writeLine l ++ T)
+    (h1 : lr.line + 1 ≤ usizeMax) (h2 : lr.v.pos + (writeLine l).length ≤ usizeMax) :
+    Wp E nextLineRest lr (fun r lr1 => r = some l ∧
+      LineEnd lr (if l.endsInComment then (writeLine l).length - 1 else (writeLine l).length)
+        (!l.endsInComment) lr1) := by
+  unfold nextLineRest
+  cases l with
+  | comment c =>
+    simp only [Line.wf, commentOk] at hwf
+    simp only [writeLine, writeLineUnterminated, Btor2Tables.comment_kw, List.cons_append, List.nil_append,
+      List.append_assoc, List.length_cons, List.length_append, List.length_nil] at hr h2 ⊢
+    refine Wp.bind' (?_ : Wp E tryNode lr (fun r lr2 => r = none ∧ Adv lr 0 lr2)) ?_
+    · unfold tryNode
+      refine Wp.bind' (positiveInt_none (E := E) hr (by rfl)) ?_
+      intro r lr2 ⟨hres, a2⟩
+      subst hres
+      exact Wp.pure ⟨rfl, a2⟩
+    intro r lr2 ⟨hres, a2⟩
+    subst hres
+    have r2 : lr2.v.rest = 59 :: (c ++ 10 :: T) := by rw [a2.rest, hr]; rfl
+    dsimp only
+    refine Wp.bind' (commentStart_some r2) ?_
+    intro r lr3 ⟨hres, a3⟩
+    subst hres
+    have r3 : lr3.v.rest = c ++ 10 :: T := a3.rest_of (t := [59]) r2
+    dsimp only
+    refine Wp.bind' (commentBody_exact r3 hwf) ?_
+    intro cc lr4 ⟨hres, a4⟩
+    subst hres
+    refine Wp.pure ⟨rfl, ?_⟩
+    have := LineEnd.of_adv ((a2.trans a3).trans a4)
+    simp only [Line.endsInComment, ↓reduceIte, Bool.not_true]
+    refine this.cast' ?_
+    omega
+  | node nd =>
+    obtain ⟨id, variant, symbol, comment⟩ := nd
+    have hwf' : Node.wf { id, variant, symbol, comment } = true := hwf
+    cases comment with
+    | some c =>
+      have hc : commentOk c = true := by
+        simp only [Node.wf, Bool.and_eq_true] at hwf'; exact hwf'.2
+      rw [writeLine_node_comment] at hr h2 ⊢
+      have r1 : lr.v.rest = nodeHeadText { id, variant, symbol, comment := some c } ++ (c ++ 10 :: T) := by
+        rw [hr]; simp
+      refine Wp.bind' (tryNode_exact (E := E) { id, variant, symbol, comment := some c } hwf' r1
+        h1 (by simp only [List.length_append] at h2; omega)) ?_
+      intro r lr2 ⟨hres, le⟩
+      subst hres
+      have r2 : lr2.v.rest = c ++ 10 :: T := by rw [le.rest, r1]; simp
+      simp only [Option.isSome_some, ↓reduceIte]
+      refine Wp.bind' (commentBody_exact r2 hc) ?_
+      intro cc lr3 ⟨hres, a3⟩
+      subst hres
+      refine Wp.pure ⟨rfl, ?_⟩
+      have := le.adv a3
+      simp only [Line.endsInComment, Option.isSome_some, ↓reduceIte, Bool.not_true] at this ⊢
+      refine this.cast' ?_
+      simp only [List.length_append, List.length_cons, List.length_nil]; omega
+    | none =>
+      rw [writeLine_node_plain] at hr h2 ⊢
+      refine Wp.bind' (tryNode_exact (E := E) { id, variant, symbol, comment := none } hwf' hr h1 h2) ?_
+      intro r lr2 ⟨hres, le⟩
+      subst hres
+      simp only [Option.isSome_none, Bool.false_eq_true, ↓reduceIte]
+      refine Wp.pure ⟨rfl, ?_⟩
+      simpa only [Line.endsInComment, Option.isSome_none, Bool.false_eq_true, ↓reduceIte, Bool.not_false]
+        using le
+
+/-- The first byte of a written line is a digit or `;` — neither a space nor a newline. -/
+theorem writeLine_head (l : Line) : ∃ x tl, writeLine l = x :: tl ∧ x ≠ 32 ∧ x ≠ 10 := by
+  cases l with
+  | comment c => exact ⟨59, c ++ [10], by simp [writeLine, writeLineUnterminated, Btor2Tables.comment_kw],
+      by decide, by decide⟩
+  | node nd =>
+    obtain ⟨d, ds, hd, hdd⟩ := natText_head nd.id
+    refine ⟨d, _, by simp only [writeLine, writeLineUnterminated, writeNode, hd, List.cons_append,
+      List.append_assoc]; rfl, ?_, ?_⟩
+    · intro h; subst h; simp [isDigit] at hdd
+    · intro h; subst h; simp [isDigit] at hdd
+
+/-- **`next_line` reads back what `write_into` wrote**, for every well-formed line, whatever
+follows it (`T`). -/
+theorem nextLine_exact (l : Line) (hwf : l.wf = true) {T : VBytes} (hr : lr.v.rest = writeLine l ++ T)
+    (h1 : lr.line + 1 ≤ usizeMax) (h2 : lr.v.pos + (writeLine l).length ≤ usizeMax) :
+    Wp E nextLine lr (fun r lr1 => r = some l ∧
+      LineEnd lr (if l.endsInComment then (writeLine l).length - 1 else (writeLine l).length)
+        (!l.endsInComment) lr1) := by
+  rw [nextLine_eq]
+  obtain ⟨x, tl, hx, h32, h10⟩ := writeLine_head l
+  refine Wp.bind' (skipWhitespace_noop (by rw [hr, hx]; rfl) h32 h10) ?_
+  intro _ lr1 a1
+  have r1 : lr1.v.rest = writeLine l ++ T := by rw [a1.rest, hr]; simp
+  refine (nextLineRest_exact l hwf r1 (by rw [a1.line]; exact h1) (by rw [a1.pos]; exact h2)).mono ?_
+  intro r lr2 ⟨hres, le⟩
+  exact ⟨hres, by simpa using LineEnd.after_adv a1 le⟩
 
 end Btor2
 end Flussab
